@@ -1,6 +1,6 @@
 (* Property C19 — the container, the atomics and gas reconfiguration are safe under concurrency.
-   PARTIAL BY DESIGN: the theorems are about the lock / atomic STATE MACHINES (an RW lock that admits every
-   interleaving sync.RWMutex admits and more; atomic primitives as indivisible steps).  The Go scheduler, the
+   PARTIAL BY DESIGN: the theorems are about the lock / atomic STATE MACHINES (an RW lock that allows every
+   interleaving sync.RWMutex allows and more; atomic primitives as indivisible steps).  The Go scheduler, the
    Go memory model, sync and sync/atomic are trusted; real schedules and the race detector are the harness's
    part (harness/c19.go).  The shape of the sources the models assume is an obligation over a table
    regenerated from /repo on every run (C19_lock_discipline_ok and the theorems derived from it).
